@@ -62,6 +62,21 @@ theorem ext_logEv (q : Q) (e : Ev) (he : e ≠ .valueError) : Ext q (q.logEv e) 
 theorem ext_schedC (q : Q) (c : Nat) : Ext q (q.schedC c) :=
   ⟨rfl, fun r h => by simp [schedC, h], fun h => h⟩
 
+theorem ext_modP (q : Q) (j : Nat) (f : Aux → Aux) : Ext q (q.modP j f) := ⟨rfl, fun _ h => h, fun h => h⟩
+theorem ext_schedP (q : Q) (j : Nat) : Ext q (q.schedP j) :=
+  ⟨rfl, fun r h => by simp [schedP, modP, h], fun h => h⟩
+
+theorem ext_wakePutter (q : Q) : Ext q q.wakePutter := by
+  unfold wakePutter
+  simp only
+  split
+  · exact ⟨rfl, fun _ h => h, fun h => h⟩
+  · refine Ext.trans ?_ (ext_schedP _ _)
+    refine Ext.trans ?_ (ext_modP _ _ _)
+    exact ⟨rfl, fun _ h => h, fun h => h⟩
+
+theorem ext_waitPutter (q : Q) (j : Nat) : Ext q (q.waitPutter j) := ⟨rfl, fun _ h => h, fun h => h⟩
+
 theorem ext_wakeGetter (q : Q) : Ext q q.wakeGetter := by
   unfold wakeGetter
   simp only
@@ -94,8 +109,11 @@ theorem ext_waitGetter (q : Q) (c : Nat) : Ext q (q.waitGetter c) := by
 theorem K.joiners_take (k : K) (c : Nat) : (k.take c).joiners = k.joiners := by
   unfold K.take; split <;> rfl
 
-theorem ext_put (q : Q) (x : Nat) : Ext q (q.put x) :=
-  Ext.trans (ext_setK q (q.k.put x) rfl) (ext_wakeGetter _)
+theorem ext_put (q : Q) (x : Nat) : Ext q (q.put x) := by
+  unfold put
+  split
+  · exact Ext.refl _
+  · exact Ext.trans (ext_setK q (q.k.put x) rfl) (ext_wakeGetter _)
 
 theorem ext_tryGet (q : Q) (c : Nat) : Ext q (q.tryGet c) := by
   unfold tryGet
@@ -103,6 +121,7 @@ theorem ext_tryGet (q : Q) (c : Nat) : Ext q (q.tryGet c) := by
   · exact Ext.trans (ext_setK q (q.k.wait c) rfl) (ext_waitGetter _ _)
   · refine Ext.trans ?_ (ext_armGate _ _)
     refine Ext.trans ?_ (ext_logEv _ _ (by simp))
+    refine Ext.trans ?_ (ext_wakePutter _)
     exact ext_setK q (q.k.take c) (K.joiners_take _ _)
 
 theorem ext_abortGet (q : Q) (c : Nat) (w : Bool) : Ext q (q.abortGet c w) := by
@@ -149,6 +168,64 @@ theorem ext_gate (q : Q) (c : Nat) (exc : Bool) : Ext q (q.gate c exc) := by
   · refine Ext.trans ?_ (ext_schedC _ _)
     exact ext_modA _ _ _
   · exact Ext.refl _
+
+theorem K.joiners_pput (k : K) (j : Nat) : (k.pput j).joiners = k.joiners := by
+  unfold K.pput; split <;> rfl
+
+theorem ext_tryPut (q : Q) (j x : Nat) : Ext q (q.tryPut j x) := by
+  unfold tryPut
+  split
+  · exact Ext.trans (ext_setK q (q.k.pwait j) rfl) (ext_waitPutter _ _)
+  · refine Ext.trans ?_ (ext_logEv _ _ (by simp))
+    exact Ext.trans (ext_setK q (q.k.pput j) (K.joiners_pput _ _)) (ext_wakeGetter _)
+
+theorem ext_abortPut (q : Q) (j : Nat) (w : Bool) : Ext q (q.abortPut j w) := by
+  unfold abortPut
+  simp only
+  have h0 : Ext q (({ q with putters := q.putters.erase j } : Q).setK (q.k.pabort j)) := ⟨rfl, fun _ h => h, fun h => h⟩
+  split
+  · refine Ext.trans ?_ (ext_logEv _ _ (by simp))
+    exact Ext.trans h0 (ext_wakePutter _)
+  · exact Ext.trans h0 (ext_logEv _ _ (by simp))
+
+theorem ext_startProducer (q : Q) (j : Nat) (a : Aux) (x : Nat) : Ext q (q.startProducer j a x) := by
+  unfold startProducer
+  split
+  · exact Ext.trans (ext_modP _ _ _) (ext_setK _ _ rfl)
+  · exact ext_tryPut _ _ _
+
+theorem ext_wakeProducer (q : Q) (j : Nat) (a : Aux) (x : Nat) : Ext q (q.wakeProducer j a x) := by
+  unfold wakeProducer
+  simp only
+  split
+  · exact Ext.trans (ext_modP _ _ _) (ext_abortPut _ _ _)
+  · exact Ext.trans (ext_modP _ _ _) (ext_tryPut _ _ _)
+
+theorem ext_stepProducer (q : Q) (j : Nat) : Ext q (q.stepProducer j) := by
+  unfold stepProducer
+  split
+  · split
+    · exact Ext.refl _
+    · simp only
+      split
+      · refine Ext.trans ?_ (ext_startProducer _ _ _ _)
+        exact ext_modP _ _ _
+      · refine Ext.trans ?_ (ext_wakeProducer _ _ _ _)
+        exact ext_modP _ _ _
+      · exact ext_modP _ _ _
+  · exact Ext.refl _
+
+theorem ext_cancelProducer (q : Q) (j : Nat) : Ext q (q.cancelProducer j) := by
+  unfold cancelProducer
+  split
+  · split
+    · exact Ext.refl _
+    · split
+      · exact Ext.trans (ext_modP _ _ _) (ext_schedP _ _)
+      · exact ext_modP _ _ _
+  · exact Ext.refl _
+
+theorem ext_produce (q : Q) (x : Nat) : Ext q (q.produce x) := ⟨rfl, fun r h => by simp [produce, h], fun h => h⟩
 
 theorem ext_spawn (q : Q) : Ext q q.spawn := ⟨rfl, fun r h => by simp [spawn, h], fun h => h⟩
 
@@ -238,7 +315,7 @@ theorem shell_handTake (q : Q) (hi : q.k.Inv) (hs : q.Shell) : q.handTake.Shell 
               ∧ K.wakes ({ q.k with items := rest, takes := q.k.takes + 1 } : K) j x = true) := hw
           rw [if_neg hw'] at hx'
           subst hx'
-          exact List.mem_append_left _ (hs.ready j x hx hsch)
+          exact List.mem_append_left _ ((ext_wakePutter q).ready _ (hs.ready j x hx hsch))
 
 theorem shell_stepConsumer (q : Q) (c : Nat) (hi : q.k.Inv) (hs : q.Shell) : (q.stepConsumer c).Shell := by
   unfold stepConsumer
@@ -329,6 +406,8 @@ theorem shell_step (q : Q) (i : Input) (hi : q.k.Inv) (hs : q.Shell) : (q.step i
   | cancel c => exact (ext_cancelConsumer q c).shell hs
   | gate c e => exact (ext_gate q c e).shell hs
   | take => exact shell_handTake q hi hs
+  | produce x => exact (ext_produce q x).shell hs
+  | cancelp j => exact (ext_cancelProducer q j).shell hs
   | run n =>
     simp only [step]
     split
@@ -336,18 +415,22 @@ theorem shell_step (q : Q) (i : Input) (hi : q.k.Inv) (hs : q.Shell) : (q.step i
     · rename_i r hr
       cases r with
       | joiner j0 => exact shell_stepJoiner q n j0 hr hs
+      | producer j0 =>
+        refine (ext_stepProducer ({ q with ready := q.ready.eraseIdx n } : Q) j0).shell ⟨hs.noVE, fun j x hx hsch => ?_⟩
+        exact mem_eraseIdx_of_ne _ n _ _ hr (by simp) (hs.ready j x hx hsch)
       | consumer c =>
         refine shell_stepConsumer ({ q with ready := q.ready.eraseIdx n } : Q) c hi ⟨hs.noVE, fun j x hx hsch => ?_⟩
         exact mem_eraseIdx_of_ne _ n _ _ hr (by simp) (hs.ready j x hx hsch)
 
-theorem shell_init : Q.init.Shell := ⟨by simp [Q.init], by simp [Q.init, K.init]⟩
+theorem shell_initN (n : Nat) : (Q.initN n).Shell := ⟨by simp [Q.initN], by simp [Q.initN, K.initN]⟩
 
 theorem shell_run (q : Q) (ins : List Input) (hi : q.k.Inv) (hs : q.Shell) : (q.run ins).Shell := by
   induction ins generalizing q with
   | nil => exact hs
   | cons i is ih => exact ih _ (inv_step q i hi) (shell_step q i hi hs)
 
-theorem shell_reach (ins : List Input) : (Q.init.run ins).Shell := shell_run _ _ K.inv_init shell_init
+theorem shell_reach (n : Nat) (ins : List Input) : ((Q.initN n).run ins).Shell :=
+  shell_run _ _ (K.inv_initN n) (shell_initN n)
 
 end Q
 end Taskpool.QueueM
